@@ -205,8 +205,7 @@ if pid == 0:
     from invoke import Context, Config, Local
     from invoke.terminals import stdin_is_foregrounded_tty, cbreak_already_set
     f = os.fdopen(slave, 'r')
-    out = {'fg': stdin_is_foregrounded_tty(f)}
-    before = termios.tcgetattr(f)
+    out = {'fg': stdin_is_foregrounded_tty(f), 'runs': []}
     seen = {}
     class L(Local):
         def handle_stdin(self, *a, **k):
@@ -214,14 +213,31 @@ if pid == 0:
                 time.sleep(0.15); seen['cbreak_during'] = cbreak_already_set(f)
             threading.Thread(target=peek, daemon=True).start()
             return super().handle_stdin(*a, **k)
-    mirror = io.StringIO()
-    try:
-        res = L(Context(Config())).run(%(cmd)r, in_stream=f, out_stream=mirror, hide='err', warn=True)
-        out['stdout'] = res.stdout
-    except BaseException as e:
-        out['exc'] = type(e).__name__
-    after = termios.tcgetattr(f)
-    out.update(restored=(before == after), cbreak_during=seen.get('cbreak_during'))
+    LFLAGS = {'echo': termios.ECHO, 'isig': termios.ISIG, 'echoe': termios.ECHOE, 'iexten': termios.IEXTEN}
+    def edit(e):
+        # what an application does between two commands (e.g. ECHO off for a password prompt)
+        attrs = termios.tcgetattr(f)
+        if e[0] == '+': attrs[3] |= LFLAGS[e[1:]]
+        elif e[0] == '-': attrs[3] &= ~LFLAGS[e[1:]]
+        termios.tcsetattr(f, termios.TCSADRAIN, attrs)
+    ok = True
+    for i, e in enumerate(%(edits)r):
+        if e: edit(e)
+        before = termios.tcgetattr(f)
+        mirror = io.StringIO()
+        r = {'edit': e}
+        try:
+            res = L(Context(Config())).run(%(cmd)r if i == 0 else 'true', in_stream=f, out_stream=mirror, hide='err', warn=True)
+            if i == 0: out['stdout'] = res.stdout
+        except BaseException as ex:
+            r['exc'] = type(ex).__name__
+        after = termios.tcgetattr(f)
+        r['restored'] = (before == after)
+        if not r['restored']:
+            r['lflag_before'], r['lflag_after'] = before[3], after[3]
+        ok = ok and r['restored']
+        out['runs'].append(r)
+    out.update(restored=ok, cbreak_during=seen.get('cbreak_during'))
     sys.stdout.write('RESULT ' + json.dumps(out) + '\n'); sys.stdout.flush()
     os._exit(0)
 else:
@@ -234,7 +250,9 @@ else:
 
 
 def tty_case(case):
-    src = TTY_HELPER % {"repo": common.REPO, "cmd": case["cmd"]}
+    """a foregrounded controlling terminal as the input stream, several commands in a row, the application
+    changing the terminal mode between them: after EVERY command the mode is the one from just before it"""
+    src = TTY_HELPER % {"repo": common.REPO, "cmd": case["cmd"], "edits": case.get("edits", [""])}
     p = subprocess.run([sys.executable, "-c", src], capture_output=True, text=True, timeout=60)
     line = [l for l in p.stdout.splitlines() if l.startswith("RESULT ")]
     if not line:
@@ -243,7 +261,10 @@ def tty_case(case):
     if not out.get("fg"):
         return None, {"skipped": "pty not foregrounded in this sandbox", **out}
     if not out.get("restored"):
-        return "[tty-not-restored] terminal attributes after the run differ from before (%s)" % case["cmd"], out
+        bad = [(i, r) for i, r in enumerate(out["runs"]) if not r["restored"]]
+        i, r = bad[0]
+        return "[tty-not-restored] terminal attributes after command %d of %d differ from those just before it (edit before it: %r; lflag %s -> %s)" % (
+            i + 1, len(out["runs"]), r["edit"], r.get("lflag_before"), r.get("lflag_after")), out
     return None, out
 
 
@@ -287,14 +308,18 @@ def run(ctx):
                 out.fail(c, why)
     out.extra["accounting"] = acct
     tt = {}
-    for cmd in ("head -c 3", "head -c 3; exit 2"):
-        c = {"tty": True, "cmd": cmd}
+    hist = [[""], ["", "-echo", "+echo"], ["-isig", "", "+isig", "-echo"]]
+    if ctx.thorough or ctx.escalated:
+        hist += [[rng.choice(["", "-echo", "+echo", "-isig", "+isig", "-echoe", "+echoe", "-iexten", "+iexten"])
+                  for _ in range(rng.randint(2, 5))] for _ in range(6)]
+    for cmd, edits in [("head -c 3", hist[0]), ("head -c 3; exit 2", hist[0])] + [("head -c 3", h) for h in hist[1:]]:
+        c = {"tty": True, "cmd": cmd, "edits": edits}
         out.case(c, True)
         try:
             why, info = tty_case(c)
         except Exception as e:  # no pty support
             info, why = {"skipped": repr(e)}, None
-        tt[cmd] = info
+        tt[cmd + " " + ",".join(edits)] = info
         if why:
             out.fail(c, why)
     out.extra["tty"] = tt
